@@ -408,6 +408,12 @@ def task_centres(pr, repo):
     C04.task_group_centres(pr, repo)
 
 
+def task_squared_cutoffs(pr, repo):
+    # every cut-off test compares with <name>_squared: it is the square of the plain value of THIS parameter object (C18-SQ)
+    from . import C18
+    C18.task_squared(pr, repo)
+
+
 def task_boundary_records(pr, repo, tag):
     from . import reader
     reader.explore_steps(pr, repo, reader.check_transition, tags=[tag], names=reader.NAMES, chains_cases=(None,),
@@ -426,7 +432,7 @@ def run(pr, repo):
                  (task_centres, ())] +
                 # order of the parts in the file: the only state carried from one record to the next is the terminus search, and a
                 # TER record (in whatever layout) re-arms it - the record automaton of C01 for the non-ATOM records
-                [(task_boundary_records, (t,)) for t in ['TER   ', 'MODEL ', 'OTHER'] + sorted(reader.TER_SHORT)])
+                [(task_boundary_records, (t,)) for t in ['TER   ', 'MODEL ', 'OTHER'] + sorted(reader.TER_SHORT)] + [(reader.task_nterm, ()), (task_squared_cutoffs, ())])
     pr.assumptions += ['iterative solver: "stopping later does not change a converged component" is NOT proved (fixed point of the '
                        'sweep in degenerate ties) - bounded monitor only', 'composition step; A-REAL',
                        'covalent coupling search is bond-based (C11: bonds need distance <= 2.5 A)']
